@@ -92,8 +92,11 @@ func drawErrCase(d *caseDrawer, r *rng.R) *PCase {
 	for try := 0; try < 4000; try++ {
 		var g *gram.Grammar
 		origin := ""
-		kind := r.Intn(4)
+		kind := r.Intn(5)
 		switch kind {
+		case 4:
+			g = specgen.ErrorNestedGrammar(r)
+			origin = "nested-error-productions"
 		case 0:
 			o := specgen.DefaultGrammarOpts()
 			o.AllowStarF = false
@@ -107,7 +110,7 @@ func drawErrCase(d *caseDrawer, r *rng.R) *PCase {
 			origin = "structured"
 		}
 		stripLists(g)
-		if kind != 1 {
+		if kind != 1 && kind != 4 {
 			specgen.AddErrors(r, g)
 			origin += "+error"
 		}
@@ -156,7 +159,12 @@ func garbage(r *rng.R, pc *PCase, alpha []int) []int {
 		w = []int{}
 	}
 	w = append([]int(nil), w...)
-	switch r.Intn(6) {
+	switch r.Intn(7) {
+	case 6:
+		// three to five independent errors
+		for k := r.Range(3, 5); k > 0; k-- {
+			w = mutate(r, w, alpha)
+		}
 	case 0:
 		if len(w) > 0 {
 			w = w[:r.Intn(len(w))]
@@ -215,7 +223,13 @@ func c09RunBatch(c *Ctx, r *rng.R, b *run.Batch, cases []*PCase) {
 		alpha := append([]int{1}, pc.G.Alphabet()...)
 		pl := &plan{pc: pc, alpha: alpha, L: enumLen(len(alpha), c.N(1500, 6000), 7)}
 		rr := r.Derive("inputs", i)
-		for k := 0; k < c.N(40, 150); k++ {
+		nGarbage := c.N(40, 150)
+		if strings.HasPrefix(pc.Origin, "nested-error") || strings.HasPrefix(pc.Origin, "error-rule-in") {
+			// these families are small and built for inputs with several
+			// errors: many more of those
+			nGarbage *= 8
+		}
+		for k := 0; k < nGarbage; k++ {
 			w := garbage(rr, pc, pc.G.Alphabet())
 			pl.rec = append(pl.rec, w)
 			toks := make([][2]int, len(w))
